@@ -11,7 +11,8 @@
 (* Property level (VIOLATION):                                                              *)
 (*   Closure...      every LOCAL link (Links!IsLocal), followed with p's own request syntax *)
 (*                   (Links!Follow - a deviating client is ClientMismatch, machinery), is   *)
-(*                   answered with success and with the advertised kind.  The clause name   *)
+(*                   answered by p's own protocol class (server log) with success and with  *)
+(*                   the advertised kind.  The clause name   *)
 (*                   carries the model's explanation when it has one: Closure_CapturedBy_<  *)
 (*                   class>, Closure_QueryPrefixCapture, Closure_UrlNameAsReference,        *)
 (*                   Closure_WrongKind, else plain Closure.                                 *)
@@ -54,8 +55,12 @@ ClientOk(e, x) ==
 
 LastRq(e) == IF Len(e.chain) = 0 THEN e.req ELSE Rq(e.chain[Len(e.chain)].line, "", e.req.tls)
 
+\* "answered": by the protocol that was asked.  e.by is the protocol class the server log names for the (last)
+\* request ("" when nothing was logged, e.g. the built-in icon route); a WAP link served as an HTML page by the HTTP
+\* class, or a Gopher selector served by the Spartan class, is not an answer in the client's protocol.
 ClosureClause(e, x) ==
-    IF e.cls = "ok" /\ (Adv(x) = "any" \/ e.obj = Adv(x)) THEN "ok"
+    IF e.cls = "ok" /\ e.by # "" /\ e.by # OwnClass(P) THEN "Closure_CapturedBy_" \o e.by
+    ELSE IF e.cls = "ok" /\ (Adv(x) = "any" \/ e.obj = Adv(x)) THEN "ok"
     ELSE IF Why(P, e.req) # "none" THEN "Closure_" \o Why(P, e.req)
     ELSE IF x.t.form = "url" /\ ~StartsWith(x.t.href, "/") THEN "Closure_UrlNameAsReference"
     ELSE IF e.cls = "ok" THEN "Closure_WrongKind"
